@@ -213,7 +213,7 @@ def numeric_tod_instants(rng, quick):
     """every day of a leap year (all 366 (day, month) pairs), the range ends, seeded days of the whole range; each with a
     time of day running through the boundary values of every field (the 16 zero / non-zero patterns) or seeded"""
     days = list(range(D(2000, 1, 1).toordinal(), D(2001, 1, 1).toordinal())) + [O0, O1 - 1]
-    days += [rng.randrange(O0, O1) for _ in range(300 if quick else 20000)]
+    days += [rng.randrange(O0, O1) for _ in range(300 if quick else 8000)]
     bounds = [datetime.timedelta(hours=h, minutes=m, seconds=sec, microseconds=us)
               for h in (0, 1, 12, 23) for m in (0, 1, 59) for sec in (0, 1, 59) for us in (0, 1, 500000, 999999, 1000)]
     rng.shuffle(bounds)
